@@ -300,6 +300,7 @@ impl Constant {
             let r = rhs
                 .value
                 .to_usize()
+                .filter(|bits| *bits < self.bits())
                 .map(|bits| {
                     let value = self.value() >> bits;
                     let msb = self.value() >> (self.bits - 1);
@@ -312,7 +313,17 @@ impl Constant {
                         fill | value
                     }
                 })
-                .unwrap_or_else(|| BigUint::from_u64(0).unwrap());
+                .unwrap_or_else(|| {
+                    // Shifting by the width or more saturates: every bit is a
+                    // copy of the sign bit.
+                    let msb = self.value() >> (self.bits - 1);
+                    if msb.is_zero() {
+                        BigUint::from_u64(0).unwrap()
+                    } else {
+                        (BigUint::from_u64(1).unwrap() << self.bits)
+                            - BigUint::from_u64(1).unwrap()
+                    }
+                });
             Ok(Constant::new_big(r, self.bits))
         }
     }
